@@ -75,6 +75,8 @@ def handle (line : String) : String :=
   | "uri" :: rest => Sat.uri rest
   | "tags" :: rest => Sat.tags rest
   | "timer" :: rest => Sat.timer rest
+  | "tlsdial" :: rest => Sat.tlsdial rest
+  | ["selfcheck"] => "ok"
   | "cmon" :: _ =>
     let v := CM.all (CM.parseHist ((line.drop 5).toString))
     if v.isEmpty then "ok" else "viol " ++ " ".intercalate v
